@@ -570,10 +570,121 @@ def check_box(case):
               "text:" + "+".join(text) if text else "text:none", "chk-wannierised" if case["chk_v"] else None)
 
 
+
+# ------------------------------------------------------------------------------------------------
+# socbox: WannierDataSOC container (two spin channels + SOC file + cell) -> to_npz -> from_npz
+
+SOCBOX_OPTIONAL = ["spn", "amn", "eig", "uhu"]
+
+socbox_st = st.fixed_dictionaries(dict(lat=wbsys.lattice_st(kinds=BK_LATTICES), mp=st.sampled_from(MP_GRIDS[:6]),
+                                       NB=st.integers(1, 4), NWr=st.sampled_from(range(4)), vals=_vals, rs=_rs,
+                                       sparse=st.booleans(), nspin=st.sampled_from([1, 2, 2]),
+                                       files=st.lists(st.sampled_from(SOCBOX_OPTIONAL), unique=True, max_size=4),
+                                       has_soc=st.booleans(), has_cell=st.booleans(), chk_v=st.booleans(),
+                                       # which files are written / asked back: everything, or an explicit list
+                                       explicit=st.booleans())).filter(_bk_ok)
+
+
+def check_socbox(case):
+    import wannierberri.w90files as W
+    from wannierberri.w90files.wandata import WannierData
+    from wannierberri.w90files.wandata_soc import WannierDataSOC
+    from wannierberri.w90files.chk import CheckPoint
+    from wannierberri.w90files.soc import SOC
+    rng = rng_of(case["rs"])
+    mp = case["mp"]
+    nk = int(np.prod(mp))
+    ks = present_kpoints(nk, case["sparse"], rng)
+    sparse = len(ks) < nk
+    nspin = case["nspin"]
+    NB = case["NB"]
+    NW = 1 + case["NWr"] % NB
+    mode = case["vals"]
+    channels = []
+    for ispin in range(nspin):
+        bkvec, kpts = make_bkvec(case["lat"], mp, rng, kptirr=ks if sparse else None)
+        NK, NNB = bkvec.NK, bkvec.NNB
+
+        def kd(shape, cplx=True):
+            return {ik: values(rng, shape, mode, cplx=cplx) for ik in ks}
+        chk_kw = dict(real_lattice=wbsys.lattice_matrix(case["lat"]), num_wann=NW, num_bands=NB, num_kpts=NK, kpt_red=kpts,
+                      mp_grid=np.array(mp))
+        if case["chk_v"]:
+            chk_kw["v_matrix"] = kd((NB, NW))
+            chk_kw["wannier_centers_cart"] = rng.uniform(-2, 2, (NW, 3))
+        files = {"chk": CheckPoint(**chk_kw), "bkvec": bkvec, "mmn": W.MMN(data=kd((NNB, NB, NB)), NK=NK)}
+        shapes = dict(spn=(NB, NB, 3), uhu=(NNB, NNB, NB, NB), amn=(NB, NW))
+        classes = dict(spn=W.SPN, uhu=W.UHU, amn=W.AMN)
+        for f in case["files"]:
+            if f == "eig":
+                files["eig"] = W.EIG(data=kd((NB,), cplx=False), NK=NK)
+            else:
+                files[f] = classes[f](data=kd(shapes[f]), NK=NK)
+        box = WannierData()
+        for k in sorted(files):
+            box.set_file(k, files[k])
+        channels.append((box, files))
+    soc = None
+    if case["has_soc"]:
+        soc = SOC(data={ik: values(rng, (nspin, nspin, 3, NB, NB), mode) for ik in ks}, NK=NK,
+                  overlap={ik: values(rng, (NB, NB), mode) for ik in ks})
+    cell = None
+    if case["has_cell"]:
+        nat = 1 + case["rs"] % 3
+        cell = dict(magmoms_on_axis=rng.uniform(-2, 2, nat), typat=rng.integers(1, 5, nat),
+                    positions=rng.uniform(0, 1, (nat, 3)))
+    names = sorted(channels[0][1])
+    whole = WannierDataSOC(data_up=channels[0][0], data_down=channels[1][0] if nspin == 2 else None, soc=soc, cell=cell)
+    lst = None
+    if case["explicit"]:
+        lst = list(names) + (["soc"] if soc is not None else [])
+    with scratch_dir() as d:
+        seed = os.path.join(d, "sub", "w90soc")
+        whole.to_npz(seed, files=lst)
+        back = WannierDataSOC.from_npz(seed, nspin=nspin, files=None if lst is None else list(lst), irreducible=sparse)
+    if back.nspin != nspin:
+        raise Violation("socbox:nspin", f"read back nspin={back.nspin}, written {nspin}")
+    if (back.data_down is None) != (nspin == 1):
+        raise Violation("socbox:data_down", f"data_down present: {back.data_down is not None} for nspin={nspin}")
+    for ispin, (box, files) in enumerate(channels):
+        b2 = back.data_up if ispin == 0 else back.data_down
+        got = sorted(b2._files)
+        if got != names:
+            raise Violation("socbox:files", f"spin {ispin}: container read back holds {got}, written {names}")
+        for k in names:
+            compare_objects(files[k], b2.get_file(k), f"socbox-npz-spin{ispin}-{k}")
+            if hasattr(files[k], "data"):
+                must_equal(files[k], b2.get_file(k), f"socbox-npz-spin{ispin}-{k}")
+        if bool(b2.irreducible) != sparse:
+            raise Violation("socbox:irreducible-flag", f"spin {ispin}: irreducible={b2.irreducible}, {len(ks)} of {NK} stored")
+    if bool(back.irreducible) != sparse:
+        raise Violation("socbox:irreducible-flag", f"container irreducible={back.irreducible}, {len(ks)} of {NK} stored")
+    if soc is None:
+        if back.has_file("soc"):
+            raise Violation("socbox:soc-invented", "a SOC file was read back although none was written")
+    else:
+        if not back.has_file("soc"):
+            raise Violation("socbox:soc-lost", "the SOC file written with the container was not read back")
+        compare_objects(soc, back.get_file("soc"), "socbox-npz-soc")
+        must_equal(soc, back.get_file("soc"), "socbox-npz-soc")
+    if cell is None:
+        if back.cell is not None:
+            raise Violation("socbox:cell-invented", f"cell read back: {back.cell}")
+    else:
+        if back.cell is None or sorted(back.cell) != sorted(cell):
+            raise Violation("socbox:cell-keys", f"cell read back {None if back.cell is None else sorted(back.cell)}, written {sorted(cell)}")
+        for k in cell:
+            same_array(np.asarray(back.cell[k]), np.asarray(cell[k]), "socbox-cell", k)
+    nt = nspin == 2 or soc is not None
+    return ok(nt, "socbox", f"nspin={nspin}", "soc" if soc is not None else "no-soc", "cell" if cell is not None else "no-cell",
+              "sparse-k" if sparse else "all-k", "explicit-list" if lst is not None else "all-files", f"nfiles={len(names)}")
+
+
 SUBS = [
     Sub("eig_text", eig_st, check_eig, quick=480, thorough=10000),
     Sub("amn_text", amn_st, check_amn, quick=480, thorough=10000),
     Sub("mmn_text", mmn_st, check_mmn, quick=400, thorough=8000),
     Sub("npz", npz_st, check_npz, quick=1200, thorough=24000),
     Sub("box", box_st, check_box, quick=320, thorough=8000),
+    Sub("socbox", socbox_st, check_socbox, quick=200, thorough=5000),
 ]
